@@ -208,6 +208,7 @@ where
         loop {
             // 1. Check for timeout
             if start_time.elapsed() > timeout {
+                self.rng = Some(rng);
                 return Err(PlanningError::Timeout);
             }
 
@@ -310,6 +311,7 @@ where
             // 9. Check if the new node satisfies the goal
             if goal.is_satisfied(&q_new) {
                 println!("Solution found after {} nodes.", self.tree.len());
+                self.rng = Some(rng);
                 return Ok(self.reconstruct_path(self.tree.len() - 1));
             }
         }
